@@ -107,6 +107,14 @@ func errReply(err error) tr.E {
 type sut struct {
 	c      cache.TTLCache
 	prefix string
+	ctx    context.Context // nil: context.Background(); racing callers carry their id here
+}
+
+func (s *sut) context() context.Context {
+	if s.ctx != nil {
+		return s.ctx
+	}
+	return context.Background()
 }
 
 func (s *sut) key(k int) string { return s.prefix + strconv.Itoa(k) }
@@ -124,7 +132,7 @@ func (s *sut) get(a act) (r tr.E) {
 	if a.Upd {
 		fns = append(fns, cache.WithUpdateTTL(int64(a.TTL)))
 	}
-	v, err := s.c.Get(context.Background(), s.key(a.K), fns...)
+	v, err := s.c.Get(s.context(), s.key(a.K), fns...)
 	if err != nil {
 		return errReply(err)
 	}
@@ -137,7 +145,7 @@ func (s *sut) do(a act) (r interface{}) {
 			r = rp(fmt.Sprintf("panic: %v", p), 0)
 		}
 	}()
-	ctx := context.Background()
+	ctx := s.context()
 	switch a.Op {
 	case "set":
 		var fns []cache.SetOptFn
@@ -189,6 +197,38 @@ type fakeRedis struct {
 	mu   sync.Mutex
 	data map[string]fentry
 	cmds []string
+	sch  *sched // when set, every command of an identified caller waits for the driver's grant
+}
+
+// sched serialises the commands of racing callers: each command is atomic, the ORDER in which
+// the callers' commands are served is chosen by the driver from the seeded generator.
+type callerKey struct{}
+
+const (
+	atGate   = 1
+	finished = 2
+)
+
+type sig struct{ p, kind int }
+
+type sched struct {
+	ev    chan sig
+	grant []chan struct{}
+}
+
+func (f *fakeRedis) gate(ctx context.Context) {
+	if f.sch == nil {
+		return
+	}
+	p, ok := ctx.Value(callerKey{}).(int)
+	if !ok {
+		return
+	}
+	f.sch.ev <- sig{p, atGate}
+	<-f.sch.grant[p]
+	f.mu.Lock()
+	f.logf("[caller %d]", p+1)
+	f.mu.Unlock()
 }
 
 func newFake() *fakeRedis { return &fakeRedis{data: map[string]fentry{}} }
@@ -257,7 +297,8 @@ func str(v interface{}) string {
 	return fmt.Sprint(v)
 }
 
-func (f *fakeRedis) Set(_ context.Context, key string, value interface{}, d time.Duration) *redis.StatusCmd {
+func (f *fakeRedis) Set(ctx context.Context, key string, value interface{}, d time.Duration) *redis.StatusCmd {
+	f.gate(ctx)
 	f.mu.Lock()
 	defer f.mu.Unlock()
 	old, had := f.live(key)
@@ -279,7 +320,8 @@ func (f *fakeRedis) Set(_ context.Context, key string, value interface{}, d time
 	return redis.NewStatusResult("OK", nil)
 }
 
-func (f *fakeRedis) SetNX(_ context.Context, key string, value interface{}, d time.Duration) *redis.BoolCmd {
+func (f *fakeRedis) SetNX(ctx context.Context, key string, value interface{}, d time.Duration) *redis.BoolCmd {
+	f.gate(ctx)
 	f.mu.Lock()
 	defer f.mu.Unlock()
 	e := fentry{val: str(value)}
@@ -303,7 +345,8 @@ func (f *fakeRedis) SetNX(_ context.Context, key string, value interface{}, d ti
 	return redis.NewBoolResult(true, nil)
 }
 
-func (f *fakeRedis) Get(_ context.Context, key string) *redis.StringCmd {
+func (f *fakeRedis) Get(ctx context.Context, key string) *redis.StringCmd {
+	f.gate(ctx)
 	f.mu.Lock()
 	defer f.mu.Unlock()
 	f.logf("get %s", key)
@@ -314,7 +357,8 @@ func (f *fakeRedis) Get(_ context.Context, key string) *redis.StringCmd {
 	return redis.NewStringResult(e.val, nil)
 }
 
-func (f *fakeRedis) GetDel(_ context.Context, key string) *redis.StringCmd {
+func (f *fakeRedis) GetDel(ctx context.Context, key string) *redis.StringCmd {
+	f.gate(ctx)
 	f.mu.Lock()
 	defer f.mu.Unlock()
 	f.logf("getdel %s", key)
@@ -326,7 +370,8 @@ func (f *fakeRedis) GetDel(_ context.Context, key string) *redis.StringCmd {
 	return redis.NewStringResult(e.val, nil)
 }
 
-func (f *fakeRedis) Expire(_ context.Context, key string, d time.Duration) *redis.BoolCmd {
+func (f *fakeRedis) Expire(ctx context.Context, key string, d time.Duration) *redis.BoolCmd {
+	f.gate(ctx)
 	f.mu.Lock()
 	defer f.mu.Unlock()
 	s := formatSec(d)
@@ -344,7 +389,8 @@ func (f *fakeRedis) Expire(_ context.Context, key string, d time.Duration) *redi
 	return redis.NewBoolResult(true, nil)
 }
 
-func (f *fakeRedis) Del(_ context.Context, keys ...string) *redis.IntCmd {
+func (f *fakeRedis) Del(ctx context.Context, keys ...string) *redis.IntCmd {
+	f.gate(ctx)
 	f.mu.Lock()
 	defer f.mu.Unlock()
 	var n int64
@@ -358,7 +404,8 @@ func (f *fakeRedis) Del(_ context.Context, keys ...string) *redis.IntCmd {
 	return redis.NewIntResult(n, nil)
 }
 
-func (f *fakeRedis) Scan(_ context.Context, cursor uint64, match string, _ int64) *redis.ScanCmd {
+func (f *fakeRedis) Scan(ctx context.Context, cursor uint64, match string, _ int64) *redis.ScanCmd {
+	f.gate(ctx)
 	f.mu.Lock()
 	defer f.mu.Unlock()
 	f.logf("scan %d %s", cursor, match)
@@ -758,6 +805,109 @@ func runConc(w *tr.W, rng *rand.Rand, i int) {
 	w.Emit(tr.E{"ev": "call", "a": p.rec(), "r": s.do(p)})
 }
 
+// racing callers on ONE key of the redis-backed cache.  Every command the cache sends to the fake
+// server is a scheduling point: the caller parks at the gate and the driver serves the parked
+// callers one command at a time in an order drawn from the seeded generator, so exactly one
+// caller runs at any time and the recorded inv/res log is totally ordered and reproducible.
+// Programs use single-key calls without update-ttl (Get + Expire is not atomic by design) and
+// the clock never comes near a deadline; TLC infers the linearization.
+func runRdsConc(w *tr.W, rng *rand.Rand, i int) {
+	threads := 2 + rng.Intn(3)
+	if rng.Intn(2) == 0 {
+		threads = 2
+	}
+	nk := 1 + rng.Intn(2)
+	dttl := []int{0, 10}[rng.Intn(2)]
+	now := 1 + rng.Intn(1000)
+	atomic.StoreInt64(&clock, int64(now))
+	fr := newFake()
+	c := cache.NewTTLRdsCache(fr, "ttl:"+prefixes[i%len(prefixes)], int64(dttl))
+	s := &sut{c: c, prefix: "k"}
+	w.Emit(tr.E{"ev": "reset", "size": nk + 2, "dttl": dttl, "nk": nk, "now": now, "threads": threads,
+		"impl": "rds", "src": "rconc"})
+	nv, ticks := 0, 0
+	rounds := 2 + rng.Intn(3)
+	for rd := 0; rd < rounds; rd++ {
+		k := rng.Intn(nk) + 1
+		if rng.Intn(5) != 0 {
+			nv++
+			a := act{Op: "set", K: k, V: nv}
+			w.Emit(tr.E{"ev": "call", "a": a.rec(), "r": s.do(a), "cmds": fr.take()})
+		}
+		if ticks < 3 && rng.Intn(4) == 0 { // ttl 10, at most 3 s per trace: far from every deadline
+			ticks++
+			tick(1)
+			w.Emit(tr.E{"ev": "call", "a": act{Op: "tick", D: 1}.rec(), "r": rp("ok", 0)})
+		}
+		progs := make([][]act, threads)
+		for t := range progs {
+			for n := 1 + rng.Intn(2); n > 0; n-- {
+				var b act
+				switch x := rng.Intn(10); {
+				case x < 5:
+					b = act{Op: "get", K: k, Rm: true}
+				case x < 6:
+					b = act{Op: "get", K: k}
+				case x < 7:
+					nv++
+					b = act{Op: "set", K: k, V: nv, Nx: true}
+				case x < 9:
+					nv++
+					b = act{Op: "set", K: k, V: nv}
+				default:
+					b = act{Op: "rem", K: k}
+				}
+				progs[t] = append(progs[t], b)
+			}
+		}
+		sc := &sched{ev: make(chan sig), grant: make([]chan struct{}, threads)}
+		for t := range sc.grant {
+			sc.grant[t] = make(chan struct{})
+		}
+		fr.sch = sc
+		evs := make([]tr.E, 0, 8*threads) // appended by the one running caller only
+		state := make([]int, threads)
+		for t := 0; t < threads; t++ {
+			go func(t int) {
+				me := &sut{c: c, prefix: "k", ctx: context.WithValue(context.Background(), callerKey{}, t)}
+				for _, b := range progs[t] {
+					evs = append(evs, tr.E{"ev": "inv", "t": t + 1, "a": b.rec()})
+					r := me.do(b)
+					evs = append(evs, tr.E{"ev": "res", "t": t + 1, "r": r})
+				}
+				sc.ev <- sig{t, finished}
+			}(t)
+			sg := <-sc.ev // runs until its first command (or to the end)
+			state[sg.p] = sg.kind
+		}
+		for {
+			var parked []int
+			for t, st := range state {
+				if st == atGate {
+					parked = append(parked, t)
+				}
+			}
+			if len(parked) == 0 {
+				break
+			}
+			p := parked[rng.Intn(len(parked))]
+			state[p] = 0
+			sc.grant[p] <- struct{}{}
+			sg := <-sc.ev
+			state[sg.p] = sg.kind
+		}
+		fr.sch = nil
+		cmds := fr.take()
+		for _, e := range evs {
+			w.Emit(e)
+		}
+		// what the round left behind (a Set that landed in between must still be there)
+		p := act{Op: "probe", Ks: allKeys(nk)}
+		w.Emit(tr.E{"ev": "call", "a": p.rec(), "r": s.do(p), "cmds": cmds})
+		fr.take()
+	}
+}
+
 func main() {
 	plans := flag.String("plans", "", "directory of TLC plans for the in-memory cache")
 	plansr := flag.String("plansr", "", "directory of TLC plans inside the comparison region")
@@ -768,6 +918,7 @@ func main() {
 	nhist := flag.Int("hist", 200, "random in-memory histories")
 	nboth := flag.Int("nboth", 150, "random region histories")
 	nconc := flag.Int("nconc", 60, "concurrent histories")
+	nrconc := flag.Int("nrconc", 60, "concurrent histories on the redis-backed cache (scheduled commands)")
 	maxops := flag.Int("maxops", 60, "max ops per history")
 	flag.Parse()
 	rng := rand.New(rand.NewSource(*seed))
@@ -803,6 +954,9 @@ func main() {
 	cw := tr.Create(*conc)
 	for i := 0; i < *nconc; i++ {
 		runConc(cw, rng, i)
+	}
+	for i := 0; i < *nrconc; i++ {
+		runRdsConc(cw, rng, i)
 	}
 	cw.Close()
 	fmt.Printf("mem_events=%d both_events=%d conc_events=%d\n", w.N(), bw.N(), cw.N())
